@@ -137,18 +137,33 @@ theorem Transport.rechunk_total_on_plain (s : List Chunk) (h : plainStreamB s = 
 
 /-! ### C08: `Plugin.iter` as an aligner -/
 
+/-- the chunk `Plugin.iter` hands to `compute` for dependency `i` in call `c`: `Chunk.split` / `concatenate` keep
+data type, kind, run id and target size of the dependency's chunks and rebuild the default super-run entry -/
+def callChunk (deps : List Align.Dep) (rid : String) (tgts : List Nat) (i : Nat) (c : Align.Call) : Chunk :=
+  { dataType := ((deps[i]?).map (·.name)).getD "", kind := ((deps[i]?).map (·.kind)).getD "",
+    runId := some rid, start := c.start, stop := c.stop, rows := c.rowsOf i,
+    subruns := none, superrun := [⟨rid, c.start, c.stop⟩], target := (tgts[i]?).getD 1 }
+
 /-- the aligned partition `Plugin.iter` hands to `compute`: per dependency one chunk per call -/
-def streamsOfCalls (deps : List Align.Dep) (calls : List Align.Call) : List (List Chunk) :=
-  (List.range deps.length).map fun i =>
-    calls.map fun c =>
-      { dataType := ((deps[i]?).map (·.name)).getD "", kind := ((deps[i]?).map (·.kind)).getD "",
-        runId := some "0", start := c.start, stop := c.stop, rows := c.rowsOf i,
-        subruns := none, superrun := [], target := 0 }
+def streamsOfCalls (deps : List Align.Dep) (rid : String) (tgts : List Nat) (calls : List Align.Call) :
+    List (List Chunk) :=
+  (List.range deps.length).map fun i => calls.map (callChunk deps rid tgts i)
+
+/-- run id and target sizes of the inputs -/
+def ridOf (ins : List (List Chunk)) : String :=
+  match ins with
+  | (c :: _) :: _ => (c.runId).getD "0"
+  | _ => "0"
+
+def targetsOf (ins : List (List Chunk)) : List Nat :=
+  ins.map fun s => match s with
+    | c :: _ => c.target
+    | [] => 1
 
 def iterAligner (deps : List Align.Dep) (strict : Bool) (ins : List (List Chunk)) : Except Err (List (List Chunk)) :=
   match Align.iterRun deps ins strict with
   | .error e => .error e
-  | .ok r => .ok (streamsOfCalls deps r.calls)
+  | .ok r => .ok (streamsOfCalls deps (ridOf ins) (targetsOf ins) r.calls)
 
 /-! ### C09: the overlap-window state machine as a kernel -/
 
